@@ -8,6 +8,9 @@ Line protocol for the wire codecs (model) and the gateway formats (spec).
     [spec] encrange <drv> <twice> <query> <std> <dapc> <seq> <lo> <hi>  -> the answers for all 16-bit frames lo..hi-1, `;`-separated
     [spec] dec <drv> <n> <n> …                                          -> meaning
     seq <generator> <start> <count>                                     -> ok n,n,…
+    unirecv <query> <compare> <c1> <fe1> <c:r0:r1:fe,…>                 -> noresponse | resp:none | resp:<v>   (UniPi `send`, receive part)
+    spec unipolls <counter> <typ> <data> <fe> <k:typ:data,…|-> <feAt|-> -> ok <c:r0:r1:fe,…>  (the six polls the gateway shows)
+    spec unirecv <query> <compare> <k:typ:data,…|-> <feAt|->            -> what the exchange denotes
 
 `<drv>`: tridonic hidhasseb luba sci daliserver atx ltridonic lhasseb unipi.
 -/
@@ -117,7 +120,40 @@ def handleRange (spec : Bool) : List String → String
     | _, _, _, _, _, _, _ => "bad-op"
   | _ => "bad-op"
 
+def fmtSend : Unipi.SendResult → String
+  | .noResponse => "noresponse"
+  | .response Option.none => "resp:none"
+  | .response (some v) => s!"resp:{v}"
+
+/-- `a:b:c[:d],…` (`-` = empty) -/
+def parseTuples (n : Nat) (s : String) : Option (List (List Nat)) :=
+  if s == "-" then some [] else
+  (s.splitOn ",").mapM (fun t =>
+    match (t.splitOn ":").mapM parseNat? with
+    | some l => if l.length == n then some l else Option.none
+    | Option.none => Option.none)
+
+def parseOptNat (s : String) : Option (Option Nat) :=
+  if s == "-" then some Option.none else (parseNat? s).map some
+
+def toEvents (l : List (List Nat)) : List (Nat × Nat × Nat) := l.map (fun e => (e.getD 0 0, e.getD 1 0, e.getD 2 0))
+
 def handle : List String → String
+  | ["unirecv", q, cmp, c1, fe1, polls] =>
+    match parseBool q, parseBool cmp, parseNat? c1, parseNat? fe1, parseTuples 4 polls with
+    | some q, some cmp, some c1, some fe1, some ps =>
+      fmtSend (Unipi.recv q cmp c1 fe1 (ps.map (fun p => ⟨p.getD 0 0, p.getD 1 0, p.getD 2 0, p.getD 3 0⟩)))
+    | _, _, _, _, _ => "bad-op"
+  | ["spec", "unipolls", counter, typ, data, fe, events, feAt] =>
+    match parseNat? counter, parseNat? typ, parseNat? data, parseNat? fe, parseTuples 3 events, parseOptNat feAt with
+    | some c, some t, some d, some fe, some ev, some feAt =>
+      "ok " ++ ",".intercalate ((Spec.Gateways.unipiPolls fe feAt ⟨c, t, d⟩ (toEvents ev) 0 6).map
+        (fun p => s!"{p.counter}:{p.r0}:{p.r1}:{p.fe}"))
+    | _, _, _, _, _, _ => "bad-op"
+  | ["spec", "unirecv", q, cmp, events, feAt] =>
+    match parseBool q, parseBool cmp, parseTuples 3 events, parseOptNat feAt with
+    | some q, some cmp, some ev, some feAt => fmtSend (Spec.Gateways.unipiExchange q cmp (toEvents ev) feAt)
+    | _, _, _, _ => "bad-op"
   | "enc" :: rest => handleEnc false rest
   | "spec" :: "enc" :: rest => handleEnc true rest
   | "encrange" :: rest => handleRange false rest
